@@ -1,6 +1,8 @@
 """C06 - no child is ever lost, duplicated or orphaned: R-OWN (writers of the two child records and the two back-pointers)
 and R-PAIR (a) (paired updates on the same object on every normal path of add_child / remove / replace_child)."""
 import ast
+from typing import Optional
+import copy
 
 from ..astutil import unparse, short, walk_local
 from ..cfg import cfg_of
@@ -33,6 +35,7 @@ def run(ctx):
     pairing_remove(ctx)
     pairing_replace(ctx, ef)
     rehoming_swaps_everything(ctx)
+    rehoming_conserves_elements(ctx)
     from ..rules import memo, shared
     memo.check(ctx, cg, ef, res, shared.api_entries(sm))
 
@@ -319,3 +322,142 @@ def rehoming_swaps_everything(ctx):
             res.check(ok, 'R-PAIR.rehome', f.fq, "`for old, new in zip(self.get_children(), copy.get_children()): self.replace_child(old, new)` swaps every sub-tree",
                       fail_detail=short(body, 120), key=f"R-PAIR.rehome|{name}", line=loop.lineno)
     res.floor('R-PAIR.rehome swap loops', n, 2)
+
+
+# ---------------------------------------------------------------------------------------------- conservation in the re-homing trials
+def _expand(g, e, at, depth=0):
+    """expression with every local name replaced by its only reaching definition (depth-limited)"""
+    if depth > 4:
+        return e
+
+    class R(ast.NodeTransformer):
+        def visit_Name(self, node):
+            if isinstance(node.ctx, ast.Load):
+                ds = dom.reaching_defs(g, node.id, at)
+                if len(ds) == 1 and isinstance(ds[0].ast, ast.Assign) and len(ds[0].ast.targets) == 1 and isinstance(ds[0].ast.targets[0], ast.Name):
+                    return _expand(g, copy.deepcopy(ds[0].ast.value), ds[0], depth + 1)
+            return node
+    return R().visit(copy.deepcopy(e))
+
+
+def _is_elems(g, e, at, depth=0) -> bool:
+    """does the expression denote a collection of attached XML elements?"""
+    if depth > 5:
+        return False
+    if isinstance(e, ast.Call) and isinstance(e.func, ast.Attribute) and e.func.attr == 'get_attached_elements':
+        return True
+    if isinstance(e, ast.Attribute) and e.attr in ('xml_elements', '_xml_elements'):
+        return True
+    if isinstance(e, (ast.ListComp, ast.GeneratorExp)) and len(e.generators) >= 1:
+        tv = unparse(e.generators[-1].target)
+        return unparse(e.elt) == tv and _is_elems(g, e.generators[-1].iter, at, depth + 1)
+    if isinstance(e, ast.BinOp) and isinstance(e.op, ast.Add):
+        return _is_elems(g, e.left, at, depth + 1) or _is_elems(g, e.right, at, depth + 1)
+    if isinstance(e, ast.Call) and isinstance(e.func, ast.Name) and e.func.id in ('list', 'sorted', 'reversed', 'tuple') and e.args:
+        return _is_elems(g, e.args[0], at, depth + 1)
+    if isinstance(e, ast.Subscript) and isinstance(e.slice, ast.Slice):
+        return _is_elems(g, e.value, at, depth + 1)
+    if isinstance(e, ast.Name):
+        ds = dom.reaching_defs(g, e.id, at) if at is not None else dom.assignments_to(g, e.id)
+        vals = [d.ast.value for d in ds if isinstance(d.ast, ast.Assign)]
+        return bool(vals) and any(_is_elems(g, v, d, depth + 1) for v, d in zip(vals, ds))
+    return False
+
+
+def _lossy_in_function(fn) -> Optional[str]:
+    """a dict / set built from a collection of attached elements (distinct elements with equal keys / equal values merge)"""
+    hg = cfg_of(fn)
+    for n in hg.stmt_nodes():
+        for e in n.exprs():
+            for x in walk_local(e):
+                if isinstance(x, (ast.DictComp, ast.SetComp)) and any(_is_elems(hg, gen.iter, n) for gen in x.generators):
+                    return short(x, 70)
+                if isinstance(x, ast.Call) and isinstance(x.func, ast.Name) and x.func.id in ('set', 'dict', 'frozenset') and x.args and _is_elems(hg, x.args[0], n):
+                    return short(x, 70)
+                if isinstance(x, ast.Call) and isinstance(x.func, ast.Attribute) and x.func.attr == 'fromkeys' and x.args and _is_elems(hg, x.args[0], n):
+                    return short(x, 70)
+    return None
+
+
+def rehoming_conserves_elements(ctx):
+    """The trial copies of _check_choices_intelligently receive every attached element: (R1) the collections handed to a copy derive from
+    get_attached_elements() through name filters and list moves only; (R2) when a copy is created inside a loop over a collection and
+    receives the loop's element, the other elements of that collection are handed to the same copy before it is returned."""
+    sm, res = ctx.sm, ctx.res
+    cg = get_cg(ctx)
+    res.rule('R-CONS.rehome', "every element attached to the container is handed to the trial copy that replaces it: collections are derived from get_attached_elements() "
+             "by name filters and list moves only (nothing keyed or de-duplicated), and a copy created per element of a collection also receives the rest of that collection")
+    f = sm.func('XMLChildContainer', '_check_choices_intelligently', T.M_CONTAINER)
+    g = cfg_of(f.node)
+    creations = [n for n in g.stmt_nodes() if n.kind == 'stmt' and isinstance(n.ast, ast.Assign) and isinstance(n.ast.value, ast.Call) and
+                 any(e.callee.name == '_create_empty_copy' for e in cg.by_node.get(n.ast.value, [])) and isinstance(n.ast.targets[0], ast.Name)]
+    if not creations:
+        raise AnalysisError("_check_choices_intelligently: no trial copy (`x = self._create_empty_copy()`) found")
+    pm = {}
+    for node in ast.walk(f.node):
+        for c in ast.iter_child_nodes(node):
+            pm[c] = node
+    n_obl = 0
+    for cr in creations:
+        x = cr.ast.targets[0].id
+        returns = [n for n in g.stmt_nodes() if n.kind == 'return' and isinstance(n.ast.value, ast.Name) and n.ast.value.id == x and g.path_avoiding(cr, n) is not None]
+        # attaches to this copy
+        attaches = []       # (cfg node, argument expression, enclosing For statement or None)
+        for n in g.stmt_nodes():
+            for e in n.exprs():
+                for c in walk_local(e):
+                    if isinstance(c, ast.Call) and isinstance(c.func, ast.Attribute) and c.func.attr == 'add_element' and unparse(c.func.value) == x and c.args:
+                        loop = None
+                        cur = pm.get(c)
+                        while cur is not None and cur is not f.node:
+                            if isinstance(cur, ast.For) and isinstance(cur.target, ast.Name) and isinstance(c.args[0], ast.Name) and cur.target.id == c.args[0].id:
+                                if not any(x is cr.ast for x in ast.walk(cur)):
+                                    loop = cur          # a loop that runs after the copy exists hands its whole collection to that copy
+                                break                   # (a loop that encloses the creation makes one copy per element: rule R2)
+                            cur = pm.get(cur)
+                        attaches.append((n, c.args[0], loop))
+        # R1: provenance of every collection / element handed over
+        for n, arg, loop in attaches:
+            src = loop.iter if loop is not None else arg
+            at = g.node_of_stmt.get(loop) if loop is not None else n
+            ex = _expand(g, src, at)
+            # the function itself and the local helpers the collection comes from
+            lossy = _lossy_in_function(f.node)
+            for c in ast.walk(ex):
+                if isinstance(c, ast.Call) and isinstance(c.func, ast.Name) and c.func.id in f.nested:
+                    lossy = lossy or _lossy_in_function(f.nested[c.func.id].node)
+            n_obl += 1
+            res.check(lossy is None, 'R-CONS.rehome', f.fq, f"the elements handed to the trial copy by `{short(src, 50)}` pass through lists only",
+                      fail_detail=f"`{lossy}` can merge distinct elements (same name, equal key)", key='R-CONS.rehome|lossy-container', line=n.line)
+        # R2: per-element copies receive the rest of the collection
+        for n, arg, loop in attaches:
+            if loop is not None or not isinstance(arg, ast.Name):
+                continue
+            # is arg the variable of a loop that encloses the creation of the copy?
+            cur = pm.get(cr.ast)
+            outer = None
+            while cur is not None and cur is not f.node:
+                if isinstance(cur, ast.For) and isinstance(cur.target, ast.Name) and cur.target.id == arg.id:
+                    outer = cur
+                    break
+                cur = pm.get(cur)
+            if outer is None:
+                continue
+            coll = unparse(outer.iter)
+            # loops that hand the remaining elements of `coll` to the same copy
+            rest_loops = []
+            for n2, arg2, loop2 in attaches:
+                if loop2 is None:
+                    continue
+                it = _expand(g, loop2.iter, g.node_of_stmt.get(loop2))
+                txt = unparse(it)
+                it_raw = unparse(loop2.iter)
+                mentions = coll in it_raw or coll in txt or unparse(_expand(g, outer.iter, g.node_of_stmt.get(outer))) in txt
+                if mentions:
+                    rest_loops.append(g.node_of_stmt.get(loop2))
+            n_obl += 1
+            ok = bool(returns) and bool(rest_loops) and all(g.path_avoiding(n, r, avoid=rest_loops) is None for r in returns)
+            res.check(ok, 'R-CONS.rehome', f.fq, f"a trial copy created per element of `{coll}` also receives the other elements of `{coll}` before it is returned",
+                      fail_detail=f"`{x}.add_element({arg.id}, ...)` hands over one element of `{coll}`; no loop over the rest of `{coll}` lies on every path to `return {x}` "
+                                  f"- with two attached elements of that name one is silently dropped from the schema-ordered view", key='R-CONS.rehome|per-element-copy', line=n.line)
+    res.floor('R-CONS.rehome obligations', n_obl, 2)
